@@ -727,6 +727,10 @@ fn server_opts(name: &str) -> ServerOpts {
     // acme has TWO enabled keys (key rotation) and sorts before the other tenants
     o.tenants = vec![TenantSpec::new("acme"), TenantSpec::new("acme").key(&make_key("acme", 1)), TenantSpec::new("bolt"), TenantSpec::new("cato")];
     o.tenants.push(TenantSpec::new(DISABLED_TENANT).disabled());
+    // 48 physical HNSW slots: the scripts never hold more than ~35 live documents (4 tenants x <= 8 ids), so no
+    // insert is ever refused for capacity, but overwrites and deletes fill the slots with tombstones and the
+    // canonical insert has to compact them (renumbering every tenant's internal ids) in the middle of a script
+    o.env.push(("KYRODB__HNSW__MAX_ELEMENTS".to_string(), "48".to_string()));
     o
 }
 
